@@ -50,12 +50,12 @@ def _new_frame(rng, fr):
         if c["name"] in ("f", "g", "h") and rng.random() < 0.5:
             rows = sorted(rng.sample(range(m), rng.randint(1, max(1, m // 2))))
             for r in rows:
-                c["values"][r] = rng.choice(["NEW", "zzz", "A"])
+                c["values"][r] = rng.choice(["NEW", "zzz", "A", "", ""])   # "" is a level like any other
             placed[c["name"]] = rows
         if c["name"] == "k" and rng.random() < 0.3:
             rows = sorted(rng.sample(range(m), 1))
             for r in rows:
-                c["values"][r] = 9
+                c["values"][r] = rng.choice([9, 0, 0])   # 0 never occurs in training (codes 2, 10, -3, ...)
             placed["k"] = rows
     # the new frame's index is not 0..m-1 in order (sorted / filtered / shuffled frames are the norm)
     r = rng.random()
